@@ -24,6 +24,7 @@ func c01Program(g *prog.Gen, idx int) []*prog.Op {
 	g.R.Shuffle(len(keys), func(i, j int) { keys[i], keys[j] = keys[j], keys[i] })
 	keys = keys[:3+g.R.Intn(3)]
 	n := 6 + g.R.Intn(10)
+	mpDone := map[string]bool{}
 	for i := 0; i < n; i++ {
 		k := keys[g.R.Intn(len(keys))]
 		caller := []string{"root", "u:adm1"}[g.R.Intn(2)]
@@ -46,6 +47,30 @@ func c01Program(g *prog.Gen, idx int) []*prog.Op {
 			ops = append(ops, &prog.Op{Kind: "putObjectTagging", Caller: caller, B: b, K: k, Tags: g.KVs([]string{"t1", "t2", "env"}, 3)})
 		default:
 			ops = append(ops, &prog.Op{Kind: "deleteObject", Caller: caller, B: b, K: k})
+		}
+		// now and then the object arrives as a multipart upload: its content headers, user metadata and tags are
+		// given at the initiation and must come back with the assembled bytes (one upload per key and program:
+		// upload ids are resolved by key); some are created with a FULL_OBJECT checksum, some have two parts
+		if !mpDone[k] && g.R.Chance(22) {
+			mpDone[k] = true
+			ps := g.PutSpec()
+			ps.Data, ps.Encoding = nil, ""
+			if g.R.Chance(40) {
+				ps.Ck = []string{"crc32", "crc32c", "crc64nvme"}[g.R.Intn(3)]
+			}
+			ops = append(ops, &prog.Op{Kind: "createUpload", Caller: caller, B: b, K: k, Put: ps, Valid: true})
+			var refs []prog.PartRef
+			sizes := []int{1 + g.R.Intn(3000)}
+			if idx%5 == 0 {
+				sizes = []int{5*1024*1024 + g.R.Intn(3), 1 + g.R.Intn(3000)}
+			}
+			for pn, sz := range sizes {
+				d := []prog.Seg{{Seed: 4000 + 10*idx + pn, Off: g.R.Intn(9), Len: sz}}
+				ops = append(ops, &prog.Op{Kind: "uploadPart", Caller: caller, B: b, K: k, UpRef: true, Num: pn + 1, Data: d})
+				refs = append(refs, prog.PartRef{Num: pn + 1, ETag: (&prog.PutSpec{Data: d}).ETag()})
+			}
+			ops = append(ops, &prog.Op{Kind: "completeUpload", Caller: caller, B: b, K: k, UpRef: true, Parts: refs})
+			ops = append(ops, &prog.Op{Kind: "getObjectTagging", Caller: caller, B: b, K: k})
 		}
 		k2 := keys[g.R.Intn(len(keys))]
 		follow := []string{"getObject", "headObject", "getObjectTagging"}[g.R.Intn(3)]
@@ -87,7 +112,7 @@ func init() {
 		}
 	}
 	checks["c01"] = checkDef{"C01",
-		"programs of PutObject in six payload encodings (signed payload, UNSIGNED-PAYLOAD, signed / signed+trailer / unsigned+trailer aws-chunked with five checksum algorithms, presigned PUT) with random bodies (sizes 0…70000 incl. 32 KiB±1), content headers, user metadata and tags; CopyObject COPY/REPLACE; tagging; deletes; each followed by GET/HEAD/GetObjectTagging; keys with spaces, URL-reserved characters, UTF-8, 255-byte segments, deep nesting; requests spread round-robin over 3 gateway processes on one storage; storage configurations xattr/sidecar × O_TMPFILE/named temp × versioning dir on/off. Every answer compared with Model.Gw.step. Non-trivial = program reaches an existing bucket; distinct by op list.",
+		"programs of PutObject in six payload encodings (signed payload, UNSIGNED-PAYLOAD, signed / signed+trailer / unsigned+trailer aws-chunked with five checksum algorithms, presigned PUT) with random bodies (sizes 0…70000 incl. 32 KiB±1), content headers, user metadata and tags; CopyObject COPY/REPLACE; multipart uploads (headers, metadata and tags given at the initiation; one or two parts; with and without a FULL_OBJECT checksum); tagging; deletes; each followed by GET/HEAD/GetObjectTagging; keys with spaces, URL-reserved characters, UTF-8, 255-byte segments, deep nesting; requests spread round-robin over 3 gateway processes on one storage; storage configurations xattr/sidecar × O_TMPFILE/named temp × versioning dir on/off. Every answer compared with Model.Gw.step. Non-trivial = program reaches an existing bucket; distinct by op list.",
 		[]checkFn{
 			fam("xattr-otmp", false, false, false, 3, 101, 80, 2500),
 			fam("xattr-namedtmp", false, false, true, 2, 102, 30, 1000),
